@@ -96,6 +96,7 @@ class Machine:
         import summaries as SM
         self.SM = SM
         self.extra_summaries = summaries or {}
+        self.iter_budget = None      # k: every iterator yields at most k elements per path (set loop_limit = k + 1 with it)
 
     # ---------------------------------------------------------------- types
     def T(self, fr, ix):
@@ -1070,7 +1071,11 @@ class Machine:
                         break
                 if not ok:
                     continue
-                s2.events.extend(evs)
+                for ev in evs:
+                    if ev[0] == 'range-advance':
+                        self.write(s2, ev[1], ev[2], ev[3])
+                    else:
+                        s2.events.append(ev)
                 f2 = s2.frames[-1]
                 if t["target"] is None:
                     continue
